@@ -114,17 +114,18 @@ class Check:
         if unknown:
             rdir = REPLAY / self.prop
             rdir.mkdir(parents=True, exist_ok=True)
-            for key, v in unknown[:50]:
+            for n_, (key, v) in enumerate(unknown[:50]):
                 safe = "".join(c if c.isalnum() or c in "-_." else "_" for c in key)[:150]
                 path = rdir / f"{safe}.json"
                 path.write_text(json.dumps(
                     {"property": self.prop, "key": key, "what": v["what"],
                      "count": self.vcount[key], "seed": self.seed, "tier": self.tier,
                      "detail": v["detail"]}, indent=1, default=str))
-                print(f"VIOLATION property={self.prop} replay={path}")
-                print(f"  {key}: {v['what']} (x{self.vcount[key]})")
-            if len(unknown) > 50:
-                print(f"  ... and {len(unknown) - 50} further violation classes")
+                if n_ < 12:
+                    print(f"VIOLATION property={self.prop} replay={path}")
+                    print(f"  {key}: {v['what'][:300]} (x{self.vcount[key]})")
+            if len(unknown) > 12:
+                print(f"  ... {len(unknown)} violation classes in total; replay files for the first 50 under {rdir}")
             rc = 1
         self._write_evidence(len(unknown), [k for k, _ in known_hit])
         print(f"{self.prop} {self.tier}: "
